@@ -857,6 +857,13 @@ func (e *Engine) enter(s *State, f *Frame, from, to *ssa.BasicBlock) {
 	if m := e.loops[f.fn.String()]; m != nil {
 		ann = m[ord]
 	}
+	if e.curT != nil { // an annotation scoped to the target being verified wins
+		for _, key := range []string{e.curT.Fn.Name(), argVal(e.curT.D, "as")} {
+			if a := e.loopsFor[f.fn.String()+"|"+fmt.Sprint(ord)+"|"+key]; a != nil && key != "" {
+				ann = a
+			}
+		}
+	}
 	back := to.Dominates(from)
 	if ann == nil || ann.Unroll > 0 {
 		limit := 4096
@@ -1474,7 +1481,7 @@ func (e *Engine) callFn(s *State, f *Frame, fn *ssa.Function, args []Val, bind [
 		f.env[x] = IfaceV{IsNil: boolT(false), V: e.newRef(s)} // a fresh, non-nil error value
 		return true
 	}
-	if c := e.ifaceContracts[fn.String()]; c != nil && s.spec == 0 {
+	if c := e.ifaceContract(fn.String()); c != nil && s.spec == 0 {
 		// a function with a body that is deliberately kept outside this proof: recorded in the ghost trace,
 		// results constrained only by its assumed contract (nothing is havocked: listed as an assumption)
 		if r := e.unknownCall(s, fn.String(), fn.Signature, nil, args); r != nil {
